@@ -408,7 +408,10 @@ class NameConverter(ast.NodeTransformer):
         ):
             return self.generic_visit(node)
 
-        if any(isinstance(arg, ast.Starred) for arg in node.args):
+        if any(isinstance(arg, ast.Starred) for arg in node.args) or any(
+            kw.arg is None for kw in node.keywords
+        ):
+            # The types of *args and **kwargs are not known statically
             return self.generic_visit(node)
 
         cn = node.func.id == self.call_next_sym
